@@ -97,6 +97,14 @@ FamBlock ==
                 << MkTx(<< MkIn(1, "null", FALSE, <<"none">>, 3, {"sw"}) >>, << SimpleOut(1), MkOut(2, "ca", "c8", "c2", 22, {"sp", "rp"}) >>),
                    MkTx(<< SimpleIn(1), SimpleIn(2) >>, << SimpleOut(1) >>) >> } }
 
+\* varint boundaries of the counts that only headers and blocks have: extension-space entries, signblock witness items, transactions
+WideHeader(n, w) == MkHeader("20000000", [kind |-> "dynafed", cur |-> MkP("c", <<"full", 33, [k \in 1..n |-> 1]>>), prop |-> MkP("p", <<"null", 0, << >> >>),
+                                          wit |-> [k \in 1..w |-> B("", 0)]])
+FamHeaderWide == { WideHeader(n, w) : n \in {0, 252, 253}, w \in {0, 252, 253} }
+FamBlockWide ==
+  { [header |-> MkHeader("20000000", [kind |-> "proof", challenge |-> B("h.challenge", 1), solution |-> B("h.solution", 72)]),
+     txs |-> [k \in 1..n |-> MkTx(<< SimpleIn(1) >>, << SimpleOut(1) >>)]] : n \in {252, 253, 254} }
+
 \* --- C02: single-field positions of a transaction and whether they are witness data ------
 InFields(t, n) ==
   { [f |-> Nm("i", n, x), w |-> FALSE] : x \in {"txid", "vout", "ss", "seq"} }
